@@ -84,7 +84,9 @@ Theorem ldm_wait_not_stuck cfg ops sched :
 Proof.
   intros Hc Ho Hg s Hpc.
   pose proof (allinv4_reachable cfg ops sched Hc Ho) as I4. fold s in I4. pose proof I4 as ((K & A) & SI & P & L).
-  destruct (ginv_reachable cfg ops sched Hc Ho Hg) as (_ & (Sy & Sle) & GI). fold s in Sy, Sle, GI.
+  destruct (ginv_reachable cfg ops sched Hc Ho Hg) as (_ & (Sy & Sle0) & GI). fold s in Sy, Sle0, GI.
+  assert (Sle : s_next (sr s) <= next (mt s)).
+  { destruct Sle0 as [X|(X & _)]; [exact X|]. destruct Hpc as [E|E]; rewrite E in X; discriminate. }
   unfold stuck. destruct (caller_done s) eqn:Ed; [reflexivity|]. cbn [negb andb].
   assert (Hne : enabled_list cfg s <> []); [|destruct (enabled_list cfg s); [contradiction|reflexivity]].
   (* is there a job in flight that has not reported? *)
